@@ -8,6 +8,7 @@ import (
 	"os"
 	"path/filepath"
 	"sort"
+	"strings"
 
 	"github.com/google/uuid"
 	"github.com/semafind/semadb/conversion"
@@ -78,7 +79,12 @@ func f64Pool(r *rand.Rand, n int) []uint64 {
 
 func strPool(r *rand.Rand, n int) []string {
 	p := []string{"", "a", "A", "aa", "ab", "a\x00", "a\xff", "\x00", "\xff", "\xff\xff", "b", "é", "É", "ß", "straße", "İ", "ı", "K", "k", "日本", "日本語", "z", "zz", "~"}
-	base := append([]string{}, p...)
+	// long values sharing long prefixes (URLs, paths): lengths around 255/256, 1023/1024/1025, 2048, 4096, 5000
+	long := strings.Repeat("https://example.org/a/very/long/path/segment/", 120)
+	for _, l := range []int{255, 256, 257, 1023, 1024, 1025, 2047, 2048, 4096, 5000} {
+		p = append(p, long[:l], long[:l-1]+"Z", long[:l]+"a", long[:l]+"b")
+	}
+	base := append([]string{}, p[:24]...)
 	for len(p) < n {
 		switch r.IntN(4) {
 		case 0: // extend an existing string (prefix relations)
@@ -134,7 +140,7 @@ func runC19(rc *runCtx) error {
 		}
 	}
 	r := newRng(rc.seed, 19)
-	cf, err := newCaseFile(filepath.Join(rc.outDir, "cases_C19.v"), []string{"Bytes", "Model_C19", "KV", "Run_C19"}, "c19case")
+	cf, err := newCaseFile(filepath.Join(rc.outDir, "cases_C19.v"), []string{"Bytes", "Pack", "Model_C19", "KV", "Run_C19"}, "c19case")
 	if err != nil {
 		return err
 	}
@@ -162,7 +168,7 @@ func runC19(rc *runCtx) error {
 			if err != nil {
 				return err
 			}
-			cf.Add(fmt.Sprintf("CI64 %s %s %s %s %s", cZ(v), cBytes(e), cZ(d), cZ(v2), cBytes(e2)))
+			cf.Add(fmt.Sprintf("CI64 %s %s %s %s %s", cZ(v), pB(e), cZ(d), cZ(v2), pB(e2)))
 			note("int64", fmt.Sprint(v, v2))
 			if i == 0 {
 				rc.addSample(map[string]any{"kind": "int64", "v": v, "enc": fmt.Sprintf("%x", e), "dec": d, "v2": v2})
@@ -181,7 +187,7 @@ func runC19(rc *runCtx) error {
 			}
 			e2, _ := inverted.VerifToByteSortableUint64(v2)
 			d, _ := inverted.VerifFromByteSortableUint64(e)
-			cf.Add(fmt.Sprintf("CU64 %s %s %s %s %s", cN(v), cBytes(e), cN(d), cN(v2), cBytes(e2)))
+			cf.Add(fmt.Sprintf("CU64 %s %s %s %s %s", cN(v), pB(e), cN(d), cN(v2), pB(e2)))
 			note("uint64", fmt.Sprint(v, v2))
 		}
 	}
@@ -206,7 +212,7 @@ func runC19(rc *runCtx) error {
 			}
 			e2, _ := inverted.VerifToByteSortableFloat64(math.Float64frombits(v2))
 			d, _ := inverted.VerifFromByteSortableFloat64(e)
-			cf.Add(fmt.Sprintf("CF64 %s %s %s %s %s", cN(v), cBytes(e), cN(math.Float64bits(d)), cN(v2), cBytes(e2)))
+			cf.Add(fmt.Sprintf("CF64 %s %s %s %s %s", cN(v), pB(e), cN(math.Float64bits(d)), cN(v2), pB(e2)))
 			note("float64", fmt.Sprint(v, v2))
 			if v == 1<<63 {
 				rc.addSample(map[string]any{"kind": "float64", "bits": fmt.Sprintf("%016x", v), "enc": fmt.Sprintf("%x", e), "decbits": fmt.Sprintf("%016x", math.Float64bits(d))})
@@ -228,7 +234,7 @@ func runC19(rc *runCtx) error {
 			}
 			e2, _ := inverted.VerifToByteSortableString(v2)
 			d, _ := inverted.VerifFromByteSortableString(e)
-			cf.Add(fmt.Sprintf("CStr %s %s %s %s %s", cStr(v), cBytes(e), cStr(d), cStr(v2), cBytes(e2)))
+			cf.Add(fmt.Sprintf("CStr %s %s %s %s %s", pS(v), pB(e), pS(d), pS(v2), pB(e2)))
 			note("string", v+"|"+v2)
 		}
 	}
@@ -265,7 +271,7 @@ func runC19(rc *runCtx) error {
 			for j := range d {
 				dbits[j] = uint64(math.Float32bits(d[j]))
 			}
-			cf.Add(fmt.Sprintf("CF32s %s %s %s", cListN(bits), cBytes(ecopy), cListN(dbits)))
+			cf.Add(fmt.Sprintf("CF32s %s %s %s", cListN(bits), pB(ecopy), cListN(dbits)))
 			note("f32vec", fmt.Sprint(l, bits[0]))
 		}
 		for i := 0; i < n/10; i++ {
@@ -274,13 +280,13 @@ func runC19(rc *runCtx) error {
 			xs = xs[:l]
 			e := conversion.EdgeListToBytes(xs)
 			d := conversion.BytesToEdgeList(e)
-			cf.Add(fmt.Sprintf("CEdges %s %s %s", cListN(xs), cBytes(e), cListN(d)))
+			cf.Add(fmt.Sprintf("CEdges %s %s %s", cListN(xs), pB(e), cListN(d)))
 			note("edges", fmt.Sprint(l, xs))
 		}
 		for _, v := range u64Pool(r, n/8) {
 			e := conversion.Uint64ToBytes(v)
 			d := conversion.BytesToUint64(e)
-			cf.Add(fmt.Sprintf("CU64le %s %s %s", cN(v), cBytes(e), cN(d)))
+			cf.Add(fmt.Sprintf("CU64le %s %s %s", cN(v), pB(e), cN(d)))
 			note("u64le", fmt.Sprint(v))
 		}
 	}
@@ -293,11 +299,11 @@ func runC19(rc *runCtx) error {
 			k := conversion.NodeKey(id, s)
 			d, ok := conversion.NodeIdFromKey(k, s)
 			_, ok2 := conversion.NodeIdFromKey(k, s2)
-			cf.Add(fmt.Sprintf("CNode %s %d %d %s %s %s %s", cN(id), s, s2, cBytes(k), cBool(ok), cN(d), cBool(ok2)))
+			cf.Add(fmt.Sprintf("CNode %s %d %d %s %s %s %s", cN(id), s, s2, pB(k), cBool(ok), cN(d), cBool(ok2)))
 			note("nodekey", fmt.Sprint(id, s, s2))
 			dk := text.VerifDocumentKey(id)
 			dd, dok := text.VerifDocIdFromKey(dk)
-			cf.Add(fmt.Sprintf("CDoc %s %s %s %s", cN(id), cBytes(dk), cBool(dok), cN(dd)))
+			cf.Add(fmt.Sprintf("CDoc %s %s %s %s", cN(id), pB(dk), cBool(dok), cN(dd)))
 			note("dockey", fmt.Sprint(id))
 		}
 		for i := 0; i < n/8; i++ {
@@ -310,13 +316,13 @@ func runC19(rc *runCtx) error {
 			}
 			s := sufs[r.IntN(len(sufs))]
 			k := pointstore.PointKey(u, s)
-			cf.Add(fmt.Sprintf("CPoint %s %d %s", cBytes(u[:]), s, cBytes(k)))
+			cf.Add(fmt.Sprintf("CPoint %s %d %s", pB(u[:]), s, pB(k)))
 			note("pointkey", fmt.Sprint(u, s))
 		}
 		for _, t := range strPool(r, n/4) {
 			k := text.VerifTermKey(t)
 			d, ok := text.VerifTermIdFromKey(k)
-			cf.Add(fmt.Sprintf("CTerm %s %s %s %s", cStr(t), cBytes(k), cBool(ok), cStr(d)))
+			cf.Add(fmt.Sprintf("CTerm %s %s %s %s", pS(t), pB(k), cBool(ok), pS(d)))
 			note("termkey", t)
 		}
 		// raw keys into the decoders: random bytes and mutated valid keys
@@ -352,11 +358,11 @@ func runC19(rc *runCtx) error {
 			}
 			s := sufs[r.IntN(len(sufs))]
 			d, ok := conversion.NodeIdFromKey(k, s)
-			cf.Add(fmt.Sprintf("CRawNode %s %d %s %s", cBytes(k), s, cBool(ok), cN(d)))
+			cf.Add(fmt.Sprintf("CRawNode %s %d %s %s", pB(k), s, cBool(ok), cN(d)))
 			td, tok := text.VerifTermIdFromKey(k)
-			cf.Add(fmt.Sprintf("CRawTerm %s %s %s", cBytes(k), cBool(tok), cStr(td)))
+			cf.Add(fmt.Sprintf("CRawTerm %s %s %s", pB(k), cBool(tok), pS(td)))
 			dd, dok := text.VerifDocIdFromKey(k)
-			cf.Add(fmt.Sprintf("CRawDoc %s %s %s", cBytes(k), cBool(dok), cN(dd)))
+			cf.Add(fmt.Sprintf("CRawDoc %s %s %s", pB(k), cBool(dok), cN(dd)))
 			note("rawkey", string(k))
 		}
 	}
@@ -409,7 +415,7 @@ func runC19(rc *runCtx) error {
 				keys = append(keys, []byte(k))
 			}
 			sort.Slice(keys, func(i, j int) bool { return bytes.Compare(keys[i], keys[j]) < 0 })
-			keysName := cf.Aux("list bytes", cListBytes(keys))
+			keysName := cf.Aux("list bytes", pListB(keys))
 			for _, mem := range []bool{false, true} {
 				path := ""
 				if !mem {
@@ -477,7 +483,7 @@ func runC19(rc *runCtx) error {
 						}); err != nil {
 							return err
 						}
-						cf.Add(fmt.Sprintf("CScan %s %s %s %s %s %s", cBool(mem), keysName, cOptBytes(s), cOptBytes(e), cBool(incl), cListBytes(visited)))
+						cf.Add(fmt.Sprintf("CScan %s %s %s %s %s %s", cBool(mem), keysName, pOptB(s), pOptB(e), cBool(incl), pListB(visited)))
 						note("scan", fmt.Sprint(mem, b, s, e, incl))
 						if q == 0 && b == 0 {
 							rc.addSample(map[string]any{"kind": "rangescan", "mem": mem, "nkeys": len(keys), "start": fmt.Sprintf("%x", s), "end": fmt.Sprintf("%x", e), "inclusive": incl, "visited": len(visited)})
@@ -498,7 +504,7 @@ func runC19(rc *runCtx) error {
 						if mem { // map iteration order: compare as a set
 							sort.Slice(visited, func(i, j int) bool { return bytes.Compare(visited[i], visited[j]) < 0 })
 						}
-						cf.Add(fmt.Sprintf("CPrefix %s %s %s", keysName, cBytes(p), cListBytes(visited)))
+						cf.Add(fmt.Sprintf("CPrefix %s %s %s", keysName, pB(p), pListB(visited)))
 						note("prefixscan", fmt.Sprint(mem, b, p))
 					}
 					return nil
